@@ -33,10 +33,11 @@ class Problem(object):
         rs = np.random.RandomState(case['seed'])
         Q, _ = np.linalg.qr(rs.normal(size=(n, n)))
         ev = np.exp(rs.uniform(0., np.log(50.), n))
-        self.K = (Q * ev).dot(Q.T)
+        ks = case.get('kscale', 1.)      # unit system of the user problem (stiffness scale): micro-scale .. large
+        self.K = (Q * ev).dot(Q.T) * ks
         self.K = (self.K + self.K.T) / 2.
-        self.f0 = rs.normal(size=n) * case['f0scale']
-        self.f1 = rs.normal(size=n) * case['fscale']
+        self.f0 = rs.normal(size=n) * case['f0scale'] * ks
+        self.f1 = rs.normal(size=n) * case['fscale'] * ks
         self.beta = case['beta']
         self.gamma = case['gamma']
         self.kind = case['kind']
@@ -83,7 +84,8 @@ class Problem(object):
             return self.K.dot(c)
         if self.kind == 'pure':
             # gradient of 1/2 c K c + beta/4 sum c^4 + gamma/3 sum c^3
-            return self.K.dot(c) + self.beta * c ** 3 + self.gamma * c ** 2
+            ks = self.case.get('kscale', 1.)
+            return self.K.dot(c) + ks * (self.beta * c ** 3 + self.gamma * c ** 2)
         # scripted: residual magnitude drawn through a hash of (c, lf)
         hsh = hashlib.sha256(np.ascontiguousarray(c).tobytes() + np.float64(lf).tobytes()).digest()
         rho = self.script[int.from_bytes(hsh[:4], 'little') % len(self.script)]
@@ -98,7 +100,8 @@ class Problem(object):
         self._tick(c)
         c = np.asarray(c)
         if self.kind == 'pure':
-            return csr_matrix(self.K + np.diag(3 * self.beta * c ** 2 + 2 * self.gamma * c))
+            ks = self.case.get('kscale', 1.)
+            return csr_matrix(self.K + ks * np.diag(3 * self.beta * c ** 2 + 2 * self.gamma * c))
         return csr_matrix(self.K)
 
 
@@ -240,8 +243,10 @@ def _history_strategy(draw, tier='quick'):
     kind = draw(st.sampled_from(['scripted', 'scripted', 'scripted', 'pure', 'pure', 'linear']))
     initialInc = draw(st.one_of(gen.fl(0.01, 1.), st.sampled_from([1., 0.3, 0.5])))
     minInc = min(initialInc, draw(st.one_of(gen.logfl(1e-4, 1.), st.sampled_from([1e-3, 1e-2]))))
-    absTOL = draw(gen.logfl(1e-8, 1e-1))
+    kscale = draw(st.sampled_from([1., 1., 1e-12, 1e-6, 1e6]))
+    absTOL = draw(gen.logfl(1e-8, 1e-1)) * kscale
     case = {
+        'kscale': kscale,
         'kind': kind, 'n': draw(st.integers(1, 4)), 'seed': draw(st.integers(0, 2 ** 31 - 1)),
         'fscale': draw(gen.logfl(0.1, 100.)), 'f0scale': draw(st.sampled_from([0., 0., 1.])),
         'beta': draw(st.one_of(gen.fl(-5., 5.), st.sampled_from([0.5, -0.5]))), 'gamma': draw(gen.fl(-2., 2.)),
